@@ -9,6 +9,9 @@ mod models;
 mod backend_replay;
 mod bits_replay;
 mod symbol_replay;
+mod chain;
+mod ans_bounded;
+mod chain_replay;
 
 fn main() {
     common::install_panic_hook();
